@@ -196,4 +196,24 @@ example : (match genSingle exModel exQueryHaving with | .ok p => p == exPlanHavi
     (exPlanHaving.body exDb).length = 2 := by
   refine ⟨?_, ?_, ?_, ?_, ?_, ?_, ?_⟩ <;> decide +kernel
 
+/-- **Ungrouped queries, whole result**: the rows an ungrouped covered plan returns are the requested OFFSET / LIMIT slice
+of the reference rows, stably sorted by the requested keys (source order when no ORDER BY is given) — for all table contents. -/
+theorem C01_ungrouped_result {m : SModel} {q : Query} {p : Plan} {c : Cte} (h : CoveredRaw m q p c) (db : DB) :
+    p.eval db = sliceRows q.offset q.limit
+      (if q.orderBy.isEmpty then Spec.ungrouped m q (c.source.rows db)
+       else (Spec.ungrouped m q (c.source.rows db)).mergeSort
+         (rowLe (q.orderBy.map fun (f, d) => ((splitFirstDot f).map (·.2) |>.getD f, d)))) := by
+  obtain ⟨_, hsl, ho⟩ := C01_limit_offset h.gen
+  have hord : p.order = q.orderBy.map fun (f, d) => ((splitFirstDot f).map (·.2) |>.getD f, d) := by
+    rw [ho]
+    apply List.map_congr_left
+    intro fd _
+    obtain ⟨f, d⟩ := fd
+    simp only
+    cases hsp : splitFirstDot f with
+    | none => rfl
+    | some ab => obtain ⟨a, b⟩ := ab; rfl
+  unfold Plan.eval
+  simp only [C01_ungrouped h db, hsl, hord, List.isEmpty_map]
+
 end SideVerif
